@@ -15,8 +15,8 @@
 
   Sizes: the index invariant and the single-step FIFO theorems hold for EVERY
   32-bit size ≥ 1; theorems that involve a bulk move or an `int` index assume
-  size ≤ 2^31 (resp. < 2^31 = INT_MAX+1), which `…_needs_size_bound_witness`
-  shows to be necessary for the code as written.
+  size ≤ 2^31 (resp. < 2^31 = INT_MAX+1); `ring_move_head_size_witness` shows
+  that the bound is necessary for the code as written (recorded finding).
 -/
 import IgrisModel.C03.Lemmas
 namespace Igris.C03
@@ -114,18 +114,36 @@ theorem ring_read_delivers (r : RingHead) (buf q : List Byte) (n : Nat) (h : Abs
   obtain ⟨r', e, -, ha⟩ := abs_read n h
   exact ⟨r', e, ha⟩
 
-/-- bulk head move by `n ≤ room`: exactly the `n` slots after `head` are published, in order -/
-theorem ring_move_head_publishes (r : RingHead) (buf q d : List Byte) (h : Abs r buf q)
+/- FULL STATEMENT (false for the code as written, see
+`ring_move_head_size_witness` and finding C03-bulk-move-size-above-2^31):
+  "for every size ≥ 1, ring_move_head(n) with n ≤ room publishes exactly the n
+   slots after head, ring_move_tail(n) with n ≤ avail releases exactly the n
+   oldest bytes".
+Proved below for every size ≤ 2^31 (all rings whose indices fit an `int`). -/
+
+/-- bulk head move by `n ≤ room` on a ring of at most 2^31 slots: exactly the `n`
+slots after `head` are published, in order -/
+theorem ring_move_head_publishes_partial (r : RingHead) (buf q d : List Byte) (h : Abs r buf q)
     (hS : r.size.toNat ≤ 2 ^ 31) (hn : d.length ≤ r.size.toNat - 1 - q.length)
     (hd : ∀ j (hj : j < d.length), buf[(r.head.toNat + j) % r.size.toNat]? = some d[j]) :
     Abs (ringMoveHead r (BitVec.ofNat 32 d.length)) buf (q ++ d) :=
   abs_moveHead d h hS hn hd
 
-/-- bulk tail move by `n ≤ avail`: exactly the `n` oldest bytes are released -/
-theorem ring_move_tail_releases (r : RingHead) (buf q : List Byte) (n : Nat) (h : Abs r buf q)
-    (hS : r.size.toNat ≤ 2 ^ 31) (hn : n ≤ q.length) :
+/-- bulk tail move by `n ≤ avail` on a ring of at most 2^31 slots: exactly the `n`
+oldest bytes are released -/
+theorem ring_move_tail_releases_partial (r : RingHead) (buf q : List Byte) (n : Nat)
+    (h : Abs r buf q) (hS : r.size.toNat ≤ 2 ^ 31) (hn : n ≤ q.length) :
     Abs (ringMoveTail r (BitVec.ofNat 32 n)) buf (q.drop n) :=
   abs_moveTail n h hS hn
+
+/-- the excluded class is not empty of counterexamples: `head += bias` wraps
+modulo 2^32 before the fix-up loop, so on an (empty) ring of size 2^32 − 1 at
+head 2^32 − 3 a move by 5 ≤ room lands on slot 2 instead of
+(head + 5) mod size = 3.  (The index invariant still holds: `ring_inv_step`.) -/
+theorem ring_move_head_size_witness :
+    (ringMoveHead ⟨0xFFFFFFFD, 0xFFFFFFFD, 0xFFFFFFFF⟩ 5).head.toNat = 2 ∧
+    (0xFFFFFFFD + 5) % 0xFFFFFFFF = 3 := by
+  decide
 
 /-- single-step moves -/
 theorem ring_move_one (r : RingHead) (buf : List Byte) (x c : Byte) (q : List Byte) :
@@ -144,18 +162,27 @@ example : Abs ⟨1, 3, 4⟩ ([0x80, 0, 0, 0xFF] : List Byte) [0xFF, 0x80] := by
 
 /-! ## 4. FIFO over arbitrary histories -/
 
-/-- ring_fifo (refinement): start from `ring_init(size)`, `1 ≤ size ≤ 2^31`, over
-any buffer of at least `size` bytes, and apply ANY interleaving of putc, getc,
-write, read, single/bulk produce (fill + head move), single/bulk consume (peek +
-tail move), tail moves and clean whose bulk moves respect the producer /
-consumer contract (`runSpec ≠ none`: never publish more than `room`, never
-release more than `avail`).  Then the ring never faults and EVERY return value
-and EVERY delivered byte equals that of the reference FIFO queue of capacity
-`size − 1`; a full ring rejects writes and an empty ring rejects reads exactly
-where the reference does; and the final ring stores the final reference queue. -/
-theorem ring_refines_fifo (size : U32) (hs : 0 < size.toNat) (hS : size.toNat ≤ 2 ^ 31)
-    (buf : List Byte) (hb : size.toNat ≤ buf.length) (ops : List Op) (q' : List Byte)
-    (outs : List Out) (hspec : runSpec (size.toNat - 1) [] ops = some (q', outs)) :
+/- FULL STATEMENT: "for every size ≥ 1 and every contract-respecting history the
+ring behaves as the reference FIFO".  False for the code as written when a
+bulk move is applied to a ring of more than 2^31 slots
+(`ring_move_head_size_witness`); proved for EVERY size when the history uses no
+bulk move, and for every size ≤ 2^31 with arbitrary bulk moves. -/
+
+/-- ring_fifo (refinement): start from `ring_init(size)` over any buffer of at
+least `size` bytes, with `size ≤ 2^31` or a history without bulk moves (then
+any 32-bit size ≥ 1), and apply ANY interleaving of putc, getc, write, read,
+single/bulk produce (fill + head move), single/bulk consume (peek + tail move),
+tail moves and clean whose moves respect the producer / consumer contract
+(`runSpec ≠ none`: never publish more than `room`, never release more than
+`avail`).  Then the ring never faults and EVERY return value and EVERY
+delivered byte equals that of the reference FIFO queue of capacity `size − 1`;
+a full ring rejects writes and an empty ring rejects reads exactly where the
+reference does; and the final ring stores the final reference queue. -/
+theorem ring_refines_fifo_partial (size : U32) (hs : 0 < size.toNat) (buf : List Byte)
+    (hb : size.toNat ≤ buf.length) (ops : List Op)
+    (hS : size.toNat ≤ 2 ^ 31 ∨ ∀ op ∈ ops, op.isBulk = false)
+    (q' : List Byte) (outs : List Out)
+    (hspec : runSpec (size.toNat - 1) [] ops = some (q', outs)) :
     ∃ r' buf', runRing (ringInit size) buf ops = some (r', buf', outs) ∧ Abs r' buf' q' := by
   have h0 : Abs (ringInit size) buf ([] : List Byte) := abs_init size buf hs hb
   obtain ⟨r', b', e, -, ha⟩ := run_refines ops h0 (by simpa [ringInit] using hS)
@@ -167,16 +194,24 @@ clean), the bytes accepted by the ring (putc returning 1, the accepted prefix of
 each write, produced blocks), concatenated in order, are EXACTLY the bytes
 delivered (getc, read, consume), in order, followed by what is still stored:
 nothing lost, nothing duplicated, nothing altered, for every byte value. -/
-theorem ring_lossless (size : U32) (hs : 0 < size.toNat) (hS : size.toNat ≤ 2 ^ 31)
-    (buf : List Byte) (hb : size.toNat ≤ buf.length) (ops : List Op) (q' : List Byte)
-    (outs : List Out) (hspec : runSpec (size.toNat - 1) [] ops = some (q', outs))
+theorem ring_lossless_partial (size : U32) (hs : 0 < size.toNat) (buf : List Byte)
+    (hb : size.toNat ≤ buf.length) (ops : List Op)
+    (hS : size.toNat ≤ 2 ^ 31 ∨ ∀ op ∈ ops, op.isBulk = false)
+    (q' : List Byte) (outs : List Out)
+    (hspec : runSpec (size.toNat - 1) [] ops = some (q', outs))
     (hnd : ∀ op ∈ ops, op.discards = false) :
     ∃ r' buf', runRing (ringInit size) buf ops = some (r', buf', outs) ∧ Abs r' buf' q' ∧
       acceptedAll ops outs = deliveredAll ops outs ++ q' := by
-  obtain ⟨r', b', e, ha⟩ := ring_refines_fifo size hs hS buf hb ops q' outs hspec
+  obtain ⟨r', b', e, ha⟩ := ring_refines_fifo_partial size hs buf hb ops hS q' outs hspec
   have := spec_run_conserves ops hspec hnd
   exact ⟨r', b', e, ha, by simpa using this⟩
 
+-- both alternatives of `hS` are satisfiable
+example : (4 : U32).toNat ≤ 2 ^ 31 := by decide
+example : ∀ op ∈ [Op.putc 0xFF, Op.getc, Op.write [1, 2], Op.read 2, Op.produce1 7, Op.consume1],
+    op.isBulk = false := by decide
+example : ∀ op ∈ [Op.putc 0xFF, Op.getc, Op.produce [1, 2], Op.consume 2], op.discards = false := by
+  decide
 -- a contract-respecting history exists (and exercises 0xFF, wrap-around, rejects)
 example : (runSpec 2 [] [.putc 0xFF, .write [0x80, 0x00], .getc, .produce [0x01], .read 5, .getc]).isSome := by
   decide
@@ -336,15 +371,6 @@ theorem ring_getc_orig_ff_witness :
     (ringGetc ⟨1, 0, 4⟩ [0xFF, 0, 0, 0]).map (·.2) = some 255 ∧
     (ringGetc ⟨1, 0, 4⟩ [0x80, 0, 0, 0]).map (·.2) = some 128 ∧
     (ringRead ⟨3, 0, 4⟩ [0x01, 0xFF, 0x02, 0] 3).map (·.2) = some [0x01, 0xFF, 0x02] := by
-  decide
-
-/-- the bound `size ≤ 2^31` of the bulk-move theorems is necessary for the code
-as written: `head += bias` wraps modulo 2^32 before the fix-up loop, so on an
-(empty) ring of size 2^32 − 1 at head 2^32 − 3 a move by 5 ≤ room lands on slot
-2 instead of (head + 5) mod size = 3.  (The index invariant still holds.) -/
-theorem ring_move_head_needs_size_bound_witness :
-    (ringMoveHead ⟨0xFFFFFFFD, 0xFFFFFFFD, 0xFFFFFFFF⟩ 5).head.toNat = 2 ∧
-    (0xFFFFFFFD + 5) % 0xFFFFFFFF = 3 := by
   decide
 
 end Igris.C03
